@@ -480,7 +480,7 @@ def gen_huge(rng, n, mem_mb):
         ('huge number in an unknown-label message', ';x+(1<<20000)', False), ('huge number in a bad-math message', ';(x+(1<<20000))/0\nx:', False),
         ('huge number in a bad-math message (parameter)', 'def m a {\n;((1<<20000)+a)/(a-a)\n}\nm 3', False),
         ('huge number as a label swap', 'def m a {\na:\n;\n}\nm 1<<20000', False), ('huge negative pad', ';\npad 0-(1<<20000)', False), ('huge pad', ';\npad 1<<20000', False),
-        ('huge unaligned segment', ';\nsegment (1<<20000)+1', False), ('huge unaligned reserve', ';\nreserve (1<<20000)+1', False),
+        ('huge unaligned segment', ';\nsegment (1<<20000)+1', False), ('huge unaligned reserve', ';\nreserve (1<<20000)+1', False), ('huge negative reserve', ';\nreserve 0-(1<<20000)', False),
         ('huge aligned segment', ';\nsegment 1<<20000\n;', False), ('huge aligned reserve', ';\nreserve 1<<20000', False),
         ('huge rep times (negative)', 'def m {\n;\n}\n;\nrep(0-(1<<20000), i) m', False), ('huge flip', '1<<20000;', False),
         ('huge wflip value', 'wflip 0, 1<<20000', False), ('huge wflip address', 'wflip 1<<20000, 1', False),
